@@ -99,6 +99,9 @@ def dets_for_box(rng, b, box, T):
     add("pp_1", "phasor_poynting", wavelengths=wl, fixed_axis=fixed)
     add("pp_m", "phasor_poynting", wavelengths=wl, fixed_axis=fixed, direction="-", mode="pulse")
     add("pp_all", "phasor_poynting", wavelengths=wl, fixed_axis=fixed, keep_all=True)
+    add("pp_i", "phasor_poynting", wavelengths=wl, fixed_axis=fixed, inverse=True)
+    add("csp_f", "closed_phasor", wavelengths=wl)
+    add("csp_i", "closed_phasor", wavelengths=wl, inverse=True)
     return D
 
 
@@ -372,6 +375,26 @@ def predicate(case, out):
         ph = P("pp_1")[0]
         S = np.real(np.cross(ph[:, :3], np.conj(ph[:, 3:]), axis=1))
         checks.append(("phasor-poynting-area-sum", fa, 0.5 * np.stack([(S[:, a] * area(a)).sum(axis=(1, 2, 3)) for a in range(3)], axis=1)))
+        # inverse phasor Poynting detectors (plane and closed surface) subtract what the forward ones add; the closed-surface
+        # detector stores exactly the boundary planes of the full phasor; its net flux is the signed face sum
+        checks.append(("phasor-poynting-inverse-subtracts", P("pp_i") - ph0, -(P("pp_1") - ph0)))
+        cf, ci = g["csp_f"][1], g["csp_i"][1]
+        full = P("pp_1")[0]
+
+        def face(o_, key):
+            f_ = o_["faces"][key]
+            return (np.asarray(fvals(f_["re"]), dtype=np.float64) + 1j * np.asarray(fvals(f_["im"]), dtype=np.float64)).reshape(f_["shape"])
+        net = np.zeros(full.shape[0])
+        for key in sorted(cf["faces"]):
+            a_, side = int(key[len("phasor_axis")]), key.rsplit("_", 1)[1]
+            idx = [slice(None)] * 5
+            idx[a_ + 2] = slice(0, 1) if side == "min" else slice(-1, None)
+            F, I = face(cf, key), face(ci, key)
+            checks.append((f"closed-phasor-face-is-slice:{key}", F[0], full[tuple(idx)]))
+            checks.append((f"closed-phasor-inverse-subtracts:{key}", I - ph0, -(F - ph0)))
+            Sf = np.real(np.cross(F[0][:, :3], np.conj(F[0][:, 3:]), axis=1))[:, a_]
+            net = net + (1.0 if side == "max" else -1.0) * (Sf * area(a_)).sum(axis=(1, 2, 3))
+        checks.append(("closed-phasor-net-flux", np.asarray(fvals(cf["net"]), dtype=np.float64), 0.5 * net))
         for name, got, exp in checks:
             if np.shape(got) != np.shape(np.asarray(exp)) or relerr(got, exp) > tol:
                 return (f"{name}", f"box {box} ({tag} grid): {name}: got {np.asarray(got).ravel()[:6]} expected {np.asarray(exp).ravel()[:6]}")
